@@ -35,6 +35,7 @@ type schedCell struct {
 	name  string
 	nproc int
 	encs  int // encrypts per process
+	sample int // > 0: this many seeded random schedules instead of the full enumeration (space too large)
 	prep  func(e *env, ps []*proc)
 }
 
@@ -47,19 +48,19 @@ func schedCells() []schedCell {
 	}
 	cold := func(e *env, ps []*proc) { newProcs(e, ps, 0) }
 	return []schedCell{
-		{"cold", 2, 1, cold},
-		{"cold-2enc", 2, 2, cold},
-		{"both-expired", 2, 1, func(e *env, ps []*proc) { e.producer("P", 1); time.Sleep(tE + 2*tP); newProcs(e, ps, 0) }},
-		{"sk-expired-ik-valid", 2, 1, func(e *env, ps []*proc) {
+		{"cold", 2, 1, 0, cold},
+		{"cold-2enc", 2, 2, 0, cold},
+		{"both-expired", 2, 1, 0, func(e *env, ps []*proc) { e.producer("P", 1); time.Sleep(tE + 2*tP); newProcs(e, ps, 0) }},
+		{"sk-expired-ik-valid", 2, 1, 0, func(e *env, ps []*proc) {
 			e.producer("seed", 1)
 			time.Sleep(tE / 2)
 			e.producer("P", 1)
 			time.Sleep(tE/2 + 2*tP)
 			newProcs(e, ps, 0)
 		}},
-		{"ik-revoked", 2, 1, func(e *env, ps []*proc) { e.producer("P", 1); e.revoke("ik"); time.Sleep(2 * tP); newProcs(e, ps, 0) }},
-		{"sk-revoked", 2, 1, func(e *env, ps []*proc) { e.producer("P", 1); e.revoke("sk"); time.Sleep(2 * tP); newProcs(e, ps, 0) }},
-		{"warm-stale-p0", 2, 1, func(e *env, ps []*proc) {
+		{"ik-revoked", 2, 1, 0, func(e *env, ps []*proc) { e.producer("P", 1); e.revoke("ik"); time.Sleep(2 * tP); newProcs(e, ps, 0) }},
+		{"sk-revoked", 2, 1, 0, func(e *env, ps []*proc) { e.producer("P", 1); e.revoke("sk"); time.Sleep(2 * tP); newProcs(e, ps, 0) }},
+		{"warm-stale-p0", 2, 1, 0, func(e *env, ps []*proc) {
 			// process 0 is long-lived with warm caches that have gone stale and whose keys expired meanwhile
 			ps[0].f = e.w.Factory(cfgOf("simple"), "svc", "prod")
 			ps[0].s, _ = ps[0].f.GetSession("P")
@@ -72,8 +73,11 @@ func schedCells() []schedCell {
 			time.Sleep(tE + 2*tP)
 			newProcs(e, ps, 1)
 		}},
-		{"cold-3proc", 3, 1, cold},
-		{"both-expired-3proc", 3, 1, func(e *env, ps []*proc) { e.producer("P", 1); time.Sleep(tE + 2*tP); newProcs(e, ps, 0) }},
+		{"cold-3proc", 3, 1, 0, cold},
+		{"both-expired-3proc", 3, 1, 0, func(e *env, ps []*proc) { e.producer("P", 1); time.Sleep(tE + 2*tP); newProcs(e, ps, 0) }},
+		{"cold-3proc-2enc(sampled)", 3, 2, 6000, cold},
+		{"cold-4proc(sampled)", 4, 1, 6000, cold},
+		{"sk-revoked-3proc-2enc(sampled)", 3, 2, 4000, func(e *env, ps []*proc) { e.producer("P", 1); e.revoke("sk"); time.Sleep(2 * tP); newProcs(e, ps, 0) }},
 	}
 }
 
@@ -236,9 +240,16 @@ func exploreSchedules(t *testing.T, r *ev.Run, prop string, cellFilter func(sche
 			continue
 		}
 		d := &sched.DFS{}
+		if c.sample > 0 {
+			rs := rand.New(rand.NewSource(ev.Seed()*7 + int64(len(c.name))))
+			d.Random = rs.Intn
+		}
 		n := 0
 		states := map[string]bool{}
 		for {
+			if c.sample > 0 {
+				d.SetPath(nil) // a fresh random schedule each time
+			}
 			d.Reset()
 			var res schedResult
 			journal(fmt.Sprintf("%s schedule cell=%s path=%v", prop, c.name, d.Path()))
@@ -263,6 +274,13 @@ func exploreSchedules(t *testing.T, r *ev.Run, prop string, cellFilter func(sche
 			if n == 1 || (res.refused > 0 && r.WantSample()) {
 				r.Sample(map[string]any{"cell": c.name, "schedule": res.trace, "winners": res.winners, "refused_inserts": res.refused})
 			}
+			if c.sample > 0 {
+				exhaustive = false
+				if n >= c.sample || n >= maxPerCell {
+					break
+				}
+				continue
+			}
 			if !d.Next() {
 				break
 			}
@@ -284,6 +302,6 @@ func TestC14(t *testing.T) {
 	r.Rule("every interleaving, at the granularity of individual metastore calls, of 2 (and 3) processes - each its own factory and session over one gated, monitored metastore, same virtual time so truncated creation stamps collide - enumerated depth-first with replay from the starting states cold, both keys expired, SK expired/IK valid, IK revoked, SK revoked, one long-lived process with stale caches; the controller releases exactly one parked call per step (synctest.Wait = everybody parked). After each schedule: every encrypt succeeded, every record's IK row and its SK row exist, every process and a fresh factory decrypt every record, rows never changed. Distinct+non-trivial: schedules in which at least one insert was refused.")
 	r.Assume("processes are modelled as separate factories sharing the metastore and KMS; one virtual clock for all", "quick tier truncates each cell (exhaustive=false then); thorough enumerates the 2-process cells completely and caps 3-process cells")
 	max := ev.Pick(350, 40000)
-	exploreSchedules(t, r, "C14", func(c schedCell) bool { return ev.Thorough() || c.nproc == 2 || c.name == "cold-3proc" }, max, false)
+	exploreSchedules(t, r, "C14", func(c schedCell) bool { return ev.Thorough() || (c.sample == 0 && (c.nproc == 2 || c.name == "cold-3proc")) }, max, false)
 	r.Finish(t)
 }
